@@ -151,13 +151,23 @@ func (w *W) Exec(op string) error {
 		inv := w.LN.NewExternalInvoice(8)
 		mq, err := w.M.M.RequestMeltQuote(nut05.PostMeltQuoteBolt11Request{Request: inv.Request, Unit: "sat", Options: map[string]nut05.MppOption{"mpp": {AmountMsat: msat}}})
 		w.note(op, err)
+		w.judgeMeltLimit(op, msat, err, w.Cfg.MPP && msat < 8000)
 		if err == nil {
 			w.Melts = append(w.Melts, &TMelt{Q: mq, Hash: inv.Hash, Internal: -1, Partial: true})
 		}
 		return nil
 	case "meltqm": // external invoice whose amount is not a whole number of sats (msat)
 		msat, _ := strconv.ParseUint(arg(1), 10, 64)
-		return w.opMeltQuoteRaw(op, w.LN.NewExternalInvoiceMsat(msat).Request, "", -1)
+		n := len(w.Melts)
+		if err := w.opMeltQuoteRaw(op, w.LN.NewExternalInvoiceMsat(msat).Request, "", -1); err != nil {
+			return err
+		}
+		var e error
+		if len(w.Melts) == n {
+			e = fmt.Errorf("refused")
+		}
+		w.judgeMeltLimit(op, msat, e, true)
+		return nil
 	case "meltqh": // an invoice forged by a third party: payment hash of own mint quote qi, another amount (sat)
 		qi := ints(arg(1))[0]
 		a, _ := strconv.ParseUint(arg(2), 10, 64)
@@ -611,6 +621,24 @@ func (w *W) opMeltQuote(op string, amount uint64, qi int, partial bool) error {
 	}
 	w.Melts = append(w.Melts, &TMelt{Q: mq, Hash: hash, Internal: qi, Partial: partial})
 	return nil
+}
+
+// judgeMeltLimit: the melting maximum is a limit in sats on what the quote makes the mint pay; an amount with sub-sat
+// precision counts with its sats rounded up (what the user has to burn). acceptable: nothing else forbids the request.
+func (w *W) judgeMeltLimit(op string, msat uint64, err error, acceptable bool) {
+	lim := w.Cfg.Limits.MeltingSettings.MaxAmount
+	if lim == 0 {
+		return
+	}
+	sat := new(big.Int).SetUint64(msat)
+	sat.Add(sat, big.NewInt(999)).Div(sat, big.NewInt(1000))
+	over := sat.Cmp(new(big.Int).SetUint64(lim)) > 0
+	if over && err == nil {
+		w.viol("C16", "melt-quote-over-limit-accepted", "%s: a melt quote for %d msat (%s sat) was granted, melt max %d", op, msat, sat, lim)
+	}
+	if !over && err != nil && acceptable {
+		w.viol("C16", "melt-quote-within-limit-refused", "%s: a melt quote for %d msat (%s sat) was refused, melt max %d", op, msat, sat, lim)
+	}
 }
 
 // opMeltQuoteRaw requests a melt quote for an arbitrary BOLT11 string (no accept / reject demand: the statement's
